@@ -410,6 +410,45 @@ impl World {
         Ok(false)
     }
 
+    /// The client of connection `i` closes its socket without having read what the server
+    /// wrote (back-pressure scenarios): a task blocked on that socket now fails its write;
+    /// the pending socket events (end of stream) are handled, then everything settles.
+    /// `Ok(true)` when the connection's task has ended.
+    pub fn eof_unread(&mut self, i: usize) -> Result<bool, MachineryError> {
+        self.close_client(i);
+        self.conns[i].stalled = false;
+        verif::select(self.ctl);
+        for _ in 0..10_000 {
+            if !self.conns[i].is_live() {
+                break;
+            }
+            if verif::at_gate(i) {
+                self.conns[i].blocked = false;
+                if self.conns[i].avail == 0 {
+                    break;
+                }
+                self.conns[i].avail -= 1;
+                if self.run_directive_blocking(i, Directive::Socket)? {
+                    // still not at its gate: keep polling it below
+                    self.conns[i].blocked = true;
+                }
+                continue;
+            }
+            match self.poll_conn(i) {
+                PollOut::Ready | PollOut::Panicked => break,
+                PollOut::Pending => {}
+            }
+        }
+        if !self.conns[i].is_live() {
+            self.conns[i].blocked = false;
+            self.conns[i].avail = 0;
+            self.conns[i].held.clear();
+        }
+        self.spin();
+        self.settle_blocking()?;
+        Ok(!self.conns[i].is_live())
+    }
+
     /// Let tasks the server spawned (its ping/pong timers) run without letting
     /// time pass - in production they are scheduled as soon as they are spawned.
     pub fn spin(&mut self) {
